@@ -18,14 +18,14 @@ Lemma time_to_epoch_valid : forall wide y m d h mi s ub,
   1970 <= y <= 2099 -> valid_date y m d = true -> 0 <= h < 24 -> 0 <= mi < 60 -> 0 <= s < 60 ->
   (wide = true \/ days_from_civil y m d * 86400 + h * 3600 + mi * 60 + s <= INT_MAX) ->
   time_to_epoch_gen wide (mk_tm y m d h mi s) 0 ub
-  = Some (days_from_civil y m d * 86400 + h * 3600 + mi * 60 + s, ub).
+  = (days_from_civil y m d * 86400 + h * 3600 + mi * 60 + s, ub).
 Proof.
   intros wide y m d h mi s ub Hy Hv Hh Hmi Hs Hw.
   destruct (epoch_days_ok y m d h mi s Hy Hv) as [E HD].
   unfold time_to_epoch_gen. rewrite E. unfold mk_tm. cbn [tm_hour tm_min tm_sec].
   set (D := days_from_civil y m d) in *.
   destruct wide.
-  - unfold iop. f_equal. f_equal. lia.
+  - unfold iop. f_equal. lia.
   - destruct Hw as [Hw|Hw]; [discriminate|].
     rewrite (iop_fits (D * 86400)) by (apply fits32_range; unfold INT_MAX in *; lia).
     rewrite (iop_fits ((h + 0) * 3600)) by (apply fits32_range; unfold INT_MAX in *; lia).
@@ -33,7 +33,7 @@ Proof.
     rewrite (iop_fits (mi * 60)) by (apply fits32_range; unfold INT_MAX in *; lia).
     rewrite (iop_fits (D * 86400 + (h + 0) * 3600 + mi * 60)) by (apply fits32_range; unfold INT_MAX in *; lia).
     rewrite (iop_fits (D * 86400 + (h + 0) * 3600 + mi * 60 + s)) by (apply fits32_range; unfold INT_MAX in *; lia).
-    f_equal. f_equal. lia.
+    f_equal. lia.
 Qed.
 
 Lemma lop_fits : forall x ub, 0 <= x <= 9223372036854775807 -> lop x ub = (x, ub).
@@ -47,7 +47,7 @@ Qed.
 Lemma epoch_inverse_lemma : forall y m d h mi s,
   1970 <= y <= 2099 -> valid_date y m d = true -> 0 <= h < 24 -> 0 <= mi < 60 -> 0 <= s < 60 ->
   time_to_epoch (mk_tm y m d h mi s) 0 false
-  = Some (days_from_civil y m d * 86400 + h * 3600 + mi * 60 + s, false).
+  = (days_from_civil y m d * 86400 + h * 3600 + mi * 60 + s, false).
 Proof. intros; apply time_to_epoch_valid; auto. Qed.
 
 (* ------------------------------------------------------------------ the model parser follows the reader *)
@@ -153,7 +153,7 @@ Proof.
     unfold NS_DAY, NS_SEC, NS_MS, DAYS in *. lia. }
   assert (Hy : 1970 <= y <= 2099) by (apply (year_of_range y m d); auto).
   assert (Hte : forall ub, time_to_epoch_gen wide (mk_tm y m d h mi sc) 0 ub
-                 = Some (D * 86400 + h * 3600 + mi * 60 + sc, ub)).
+                 = (D * 86400 + h * 3600 + mi * 60 + sc, ub)).
   { intros. apply time_to_epoch_valid; auto; try lia.
     destruct Hw as [Hw|Hw]; [left; exact Hw|right].
     assert (0 <= ms) by (unfold read_ms_end in E3; destruct (at_end l9); [inversion E3; lia|];
@@ -286,3 +286,84 @@ Proof.
   - apply parse_M6; auto.
   - apply parse_date8; auto.
 Qed.
+
+(* ------------------------------------------------------------------ no read outside the text *)
+Lemma parse_decimal_total : forall k l to ub, (k <= length l)%nat ->
+  exists v r, parse_decimal k l to ub = Some (v, ub, r) /\ length r = (length l - k)%nat.
+Proof.
+  induction k; intros l to ub H.
+  - exists to, l. cbn. split; [reflexivity|lia].
+  - destruct l as [|c l]; [cbn in H; lia|]. cbn [parse_decimal]. cbn [length] in H.
+    destruct (IHk l (to * 10 + (schar c - 48)) ub ltac:(lia)) as (v & r & E & L).
+    exists v, r. split; [exact E|]. cbn [length]. lia.
+Qed.
+
+Lemma skip1_length : forall l, length (skip1 l) = (length l - 1)%nat.
+Proof. destruct l; cbn; lia. Qed.
+
+Lemma date_total : forall wide s, (5 <= length s)%nat -> is_now s = false ->
+  exists t ub, date_parse_gen wide s = Ticks t ub.
+Proof.
+  intros wide s H Hn.
+  assert (La : length (s ++ [0]) = (length s + 1)%nat) by (rewrite app_length; reflexivity).
+  unfold date_parse_gen. rewrite Hn.
+  destruct (parse_decimal_total 4 (s ++ [0]) 0 false ltac:(lia)) as (y & r1 & E1 & L1). rewrite E1. cbn [bind].
+  destruct (parse_decimal_total 2 r1 0 false ltac:(lia)) as (m & r2 & E2 & L2). rewrite E2. cbn [bind].
+  destruct (Z.of_nat (length s) =? 8) eqn:T8.
+  - apply Z.eqb_eq in T8.
+    destruct (parse_decimal_total 2 r2 0 false ltac:(lia)) as (d & r3 & E3 & L3). rewrite E3. cbn [bind].
+    destruct (time_to_epoch_gen wide _ 0 false) as [e u]. destruct (lop (e * BILLION) u) as [t ub].
+    exists t, ub. reflexivity.
+  - cbn [bind]. destruct (time_to_epoch_gen wide _ 0 false) as [e u]. destruct (lop (e * BILLION) u) as [t ub].
+    exists t, ub. reflexivity.
+Qed.
+
+(* a text of at least min_text_len characters is never read past its terminating NUL: the
+   constructor always yields a field, whatever the characters are *)
+Lemma parse_total_lemma : forall wide k s, (min_text_len k <= length s)%nat ->
+  exists t ub, field_parse_gen wide (mkind k) s = Ticks t ub.
+Proof.
+  intros wide k s H.
+  assert (Hn : is_now s = false) by (apply is_now_false; destruct k; cbn [min_text_len] in H; lia).
+  assert (La : length (s ++ [0]) = (length s + 1)%nat) by (rewrite app_length; reflexivity).
+  assert (Fin : forall o : option (Z * bool), o <> None -> exists t ub, out_of o = Ticks t ub).
+  { intros [[t ub]|] Ho; [exists t, ub; reflexivity|congruence]. }
+  destruct k; cbn [mkind field_parse_gen min_text_len] in *.
+  - (* UTCTimestamp *)
+    unfold date_time_parse_gen. rewrite Hn. apply Fin.
+    destruct (parse_decimal_total 4 (s ++ [0]) 0 false ltac:(lia)) as (y & r1 & E1 & L1). rewrite E1. cbn [bind].
+    destruct (parse_decimal_total 2 r1 0 false ltac:(lia)) as (m & r2 & E2 & L2). rewrite E2. cbn [bind].
+    destruct (parse_decimal_total 2 r2 0 false ltac:(lia)) as (d & r3 & E3 & L3). rewrite E3. cbn [bind].
+    pose proof (skip1_length r3) as K3.
+    destruct (parse_decimal_total 2 (skip1 r3) 0 false ltac:(lia)) as (h & r4 & E4 & L4). rewrite E4. cbn [bind].
+    pose proof (skip1_length r4) as K4.
+    destruct (parse_decimal_total 2 (skip1 r4) 0 false ltac:(lia)) as (mi & r5 & E5 & L5). rewrite E5. cbn [bind].
+    pose proof (skip1_length r5) as K5.
+    destruct (parse_decimal_total 2 (skip1 r5) 0 false ltac:(lia)) as (sc & r6 & E6 & L6). rewrite E6. cbn [bind].
+    destruct (Z.of_nat (length s) =? 21) eqn:T21.
+    + apply Z.eqb_eq in T21. pose proof (skip1_length r6) as K6.
+      destruct (parse_decimal_total 3 (skip1 r6) 0 false ltac:(lia)) as (ms & r7 & E7 & L7). rewrite E7. cbn [bind].
+      destruct (time_to_epoch_gen wide _ 0 false) as [e u]. destruct (lop (e * BILLION) u). discriminate.
+    + destruct (Z.of_nat (length s) =? 17); [|discriminate].
+      destruct (time_to_epoch_gen wide _ 0 false) as [e u]. discriminate.
+  - (* UTCTimeOnly *)
+    unfold time_parse_gen. rewrite Hn. apply Fin.
+    destruct (parse_decimal_total 2 (s ++ [0]) 0 false ltac:(lia)) as (h & r1 & E1 & L1). rewrite E1. cbn [bind].
+    pose proof (skip1_length r1) as K1.
+    destruct (parse_decimal_total 2 (skip1 r1) 0 false ltac:(lia)) as (mi & r2 & E2 & L2). rewrite E2. cbn [bind].
+    pose proof (skip1_length r2) as K2.
+    destruct (parse_decimal_total 2 (skip1 r2) 0 false ltac:(lia)) as (sc & r3 & E3 & L3). rewrite E3. cbn [bind].
+    destruct (Z.of_nat (length s) =? 12) eqn:T12.
+    + apply Z.eqb_eq in T12. pose proof (skip1_length r3) as K3.
+      destruct (parse_decimal_total 3 (skip1 r3) 0 false ltac:(lia)) as (ms & r4 & E4 & L4). rewrite E4. cbn [bind].
+      discriminate.
+    + destruct (Z.of_nat (length s) =? 8); discriminate.
+  - (* UTCDateOnly *) apply date_total; auto.
+  - apply date_total; auto.
+  - apply date_total; auto.
+  - apply date_total; auto.
+Qed.
+
+(* a shorter text is read past its end: "2014" as a UTCTimestamp *)
+Lemma parse_overrun_refuted_lemma : exists k s, is_now s = false /\ field_parse (mkind k) s = OOB.
+Proof. exists S_TS, [50; 48; 49; 52]. vm_compute. split; reflexivity. Qed.
